@@ -2,6 +2,7 @@ import PynnVerif.Proofs.RowWise
 import PynnVerif.Proofs.LowHigh
 import PynnVerif.Proofs.GenLeafUpdates
 import PynnVerif.Proofs.GenGraphUpdates
+import PynnVerif.Proofs.GenApplyHigh
 import Mathlib.Data.Nat.Basic  -- `LinearOrder Nat` for the concrete examples at the end
 
 /-!
@@ -254,6 +255,42 @@ example : ((GenK.generate_graph_updates 12 (1000 : Nat) #[#[1, -1, 2], #[-1, -1,
       #[#[1000, 1000], #[1000, 1000], #[1000, 1000]] #[#[0, 0], #[0, 0], #[0, 0]] u 2)
     = some (#[#[2, 1], #[0, 1], #[1, 2]], #[#[4, 1], #[1, 0], #[3, 0]], #[#[1, 1], #[1, 1], #[1, 1]], 7) := by
   decide +kernel
+
+/-- **The same step through the high-memory applier.**  The regenerated `generate_graph_updates` piped into the
+regenerated `apply_graph_updates_high_memory` (with any `in_graph` record `s` of one set per row): in bounds throughout, and
+the graph that comes back is the model's `applyHigh` of the concatenated `joinUpdates`.  With C12's hypotheses on the old
+graph and record (`kernel_high_memory_eq_low_memory`) this is the graph of `kernel_local_join_then_apply`. -/
+theorem kernel_local_join_then_apply_high {Q : Type} [LE Q] [LT Q] [DecidableLE Q] [DecidableLT Q]
+    (nb ob : Array (Array Int)) (th : Array Q) (data : Array (Array Q))
+    (dist : Array Q → Array Q → Q) (top : Q) (w : Nat) (hob : ob.size = nb.size)
+    (k : Nat) (hk : 0 < k) (I : Array (Array Int)) (D : Array (Array Q)) (F : Array (Array Int)) (s : InGraph)
+    (hI : I.size = D.size) (hF : F.size = D.size) (hS : s.size = D.size)
+    (hrect : ∀ r (h : r < D.size), D[r].size = k ∧ (I[r]'(by omega)).size = k ∧ (F[r]'(by omega)).size = k)
+    (hw : ∀ r (h : r < nb.size), nb[r].size = w ∧ (ob[r]'(by omega)).size = w)
+    (hok : ∀ r (h : r < nb.size), LeafRowOk nb[r] data.size ∧ LeafRowOk nb[r] th.size ∧
+      LeafRowOk (ob[r]'(by omega)) data.size ∧ LeafRowOk (ob[r]'(by omega)) th.size)
+    (hN : ∀ r (h : r < nb.size), LeafRowOk nb[r] D.size ∧ LeafRowOk (ob[r]'(by omega)) D.size)
+    (fuel : Nat) (hf : nb.size + w + w + 3 ≤ fuel) :
+    ∃ U', GenK.generate_graph_updates fuel top nb ob th data dist = some U' ∧
+      ∀ (M fuel' : Nat), (∀ b ∈ U'.toList, b.size ≤ M) → U'.size + M + k + 2 ≤ fuel' →
+        ∃ I' D' F' s' c, GenK.apply_graph_updates_high_memory fuel' I D F U' s = some (I', D', F', s', c) ∧
+          zipGraph D' I' F' = (applyHigh (zipGraph D I F) ((List.range nb.size).flatMap (fun r =>
+            joinUpdates (thrOf th top) (distOf data dist) nb[r]!.toList ob[r]!.toList)) s).1.1 := by
+  obtain ⟨U', h1, hflat, _⟩ :=
+    kernel_local_join_all_rows nb ob th data dist top w D.size hob hw hok hN fuel hf
+  obtain ⟨U'', h1', _, _, hokT⟩ :=
+    kernel_generate_graph_updates_refines nb ob th data dist top w D.size hob hw hok hN fuel hf
+  have hU : U'' = U' := by rw [h1] at h1'; exact (Option.some.inj h1').symm
+  subst hU
+  refine ⟨U'', h1, ?_⟩
+  intro M fuel' hM hf'
+  obtain ⟨I', D', F', hrun, _, _, _, _, hz⟩ :=
+    apply_graph_updates_high_memory_refines' k hk I D F U'' s M hI hF hS hrect hM hokT fuel' hf'
+  refine ⟨I', D', F', _, _, hrun, ?_⟩
+  rw [hz]
+  have : updsOf U'' = U''.toList.flatMap (fun b => b.toList.filterMap updOf) := by
+    simp [updsOf, List.filterMap_flatMap]
+  rw [this, hflat]
 
 /-- **A single leaf is exact.**  Let `leaf` enumerate the points `0..n-1` exactly once (trailing
 `-1` padding allowed), `dist` be symmetric with finite values, and
